@@ -15,7 +15,9 @@ Z3_TIMEOUT_MS = int(os.environ.get('PYVC_Z3_TIMEOUT_MS', '30000'))
 class Obl(object):
     """one proof obligation: under the path condition of `st`, `clause` must hold"""
     def __init__(self, name, prop, st, clause, oc=None, finding=None, expect_refuted=False):
-        self.name, self.prop, self.st, self.clause, self.oc = name, prop, st, clause, oc
+        self.name, self.st, self.clause, self.oc = name, st, clause, oc
+        self.props = (prop,) if isinstance(prop, str) else tuple(prop)     # an obligation can carry several properties (first = primary)
+        self.prop = self.props[0]
         self.finding = finding              # id in known_findings.json this obligation is the witness of (expected to be refuted)
         self.expect_refuted = expect_refuted
 
@@ -118,9 +120,12 @@ def run_job(job):
         out['units'] = infos; out['paths'] = stats.get('paths', 0); out['forks'] = stats.get('forks', 0)
         props = kw.get('props')
         for o in obls:
-            if props and o.prop not in props:
+            if props and not (set(o.props) & set(props)):
                 continue
-            out['results'].append(discharge(o, stats.get('model_vars')))
+            res = discharge(o, stats.get('model_vars'))
+            if props:
+                res['prop'] = [p for p in props if p in o.props][0]
+            out['results'].append(res)
         from . import lib
         out['assumptions'] = sorted(lib.USED)
     except Unsupported as e:
